@@ -280,6 +280,7 @@ func (s *Server) Declaration(ctx context.Context, params *protocol.DeclarationPa
 			if isGohtGoFile, goURI := toGohtURI(decl.TargetURI); isGohtGoFile {
 				decl.TargetURI = goURI
 				decl.TargetRange = s.goRangeToGohtRange(decl.TargetURI, decl.TargetRange)
+				decl.TargetSelectionRange = s.goRangeToGohtRange(decl.TargetURI, decl.TargetSelectionRange)
 				decls[i] = decl
 			}
 		}
@@ -557,9 +558,12 @@ func (s *Server) Implementation(ctx context.Context, params *protocol.Implementa
 		return resp, err
 	}
 	for i, location := range resp {
-		location.URI = gohtURI
-		location.Range = s.goRangeToGohtRange(gohtURI, location.Range)
-		resp[i] = location
+		// only locations inside generated template files are translated, each with its own template's map
+		if isGohtGoFile, goURI := toGohtURI(location.URI); isGohtGoFile {
+			location.URI = goURI
+			location.Range = s.goRangeToGohtRange(location.URI, location.Range)
+			resp[i] = location
+		}
 	}
 	return resp, nil
 }
@@ -648,12 +652,11 @@ func (s *Server) References(ctx context.Context, params *protocol.ReferenceParam
 		Str("uri", string(params.TextDocument.URI)).
 		Logger()
 
-	gohtURI := params.TextDocument.URI
-	var isGohtURI bool
-	isGohtURI, params.TextDocument.URI = toGohtGoURI(params.TextDocument.URI)
-	if !isGohtURI {
-		logger.Warn().Msg("not a goht file")
-		return []protocol.Location{}, fmt.Errorf("not a goht file")
+	var err error
+	params.TextDocument.URI, params.Position, err = s.updatePosition(params.TextDocument.URI, params.Position)
+	if err != nil {
+		logger.Error().Err(err).Msg("unable to update position")
+		return []protocol.Location{}, nil
 	}
 	resp, err := s.Server.References(ctx, params)
 	if err != nil || resp == nil {
@@ -663,9 +666,12 @@ func (s *Server) References(ctx context.Context, params *protocol.ReferenceParam
 		return resp, err
 	}
 	for i, location := range resp {
-		location.URI = gohtURI
-		location.Range = s.goRangeToGohtRange(gohtURI, location.Range)
-		resp[i] = location
+		// only locations inside generated template files are translated, each with its own template's map
+		if isGohtGoFile, goURI := toGohtURI(location.URI); isGohtGoFile {
+			location.URI = goURI
+			location.Range = s.goRangeToGohtRange(location.URI, location.Range)
+			resp[i] = location
+		}
 	}
 	return resp, nil
 }
@@ -704,8 +710,17 @@ func (s *Server) TypeDefinition(ctx context.Context, params *protocol.TypeDefini
 	resp, err := s.Server.TypeDefinition(ctx, params)
 	if err != nil {
 		logger.Error().Err(err).Msg("unable to perform type definition lookup")
+		return resp, err
 	}
-	return resp, err
+	for i, location := range resp {
+		// only locations inside generated template files are translated, each with its own template's map
+		if isGohtGoFile, goURI := toGohtURI(location.URI); isGohtGoFile {
+			location.URI = goURI
+			location.Range = s.goRangeToGohtRange(location.URI, location.Range)
+			resp[i] = location
+		}
+	}
+	return resp, nil
 }
 
 func (s *Server) WillSave(ctx context.Context, params *protocol.WillSaveTextDocumentParams) error {
